@@ -454,6 +454,7 @@ func c07Scenarios(tier string) []c07Params {
 		{Name: "eval-gets", Pre: pre, Conns: [][][]string{{{"EVAL", scr, "0"}}, two("GET k a", "GET k b")}, Model: map[string][][]string{"0.0": scrModel}},
 		{Name: "set-then-get", Pre: pre, Conns: [][][]string{one("SET k a POINT 3 3"), one("GET k a")}, After: map[int]int{1: 0}},
 		{Name: "set-live", Pre: pre, Conns: [][][]string{one("SET k a POINT 1.001 1.001")}, Live: true},
+		{Name: "set-set-get-spin", Pre: pre, Conns: [][][]string{one("SET k a POINT 3 3"), one("SET k a POINT 4 4"), one("GET k a")}, Spin: true},
 		{Name: "set-vs-sweeper", Pre: append(pre, w("SET k e EX 1.1 POINT 6 6")), Conns: [][][]string{one("SET k e POINT 6 6"), one("GET k e")}, Expire: true},
 	}
 	if tier == "thorough" {
